@@ -76,7 +76,7 @@ def run(cx):
                     {"leg": label, "src": c["src"], "observed": c["obs"], "specified": specjs})
         cx.sample({"family": label, "src": batch[len(batch) // 2]["src"][:400]})
     # ---- V: closure-heavy random programs
-    n = 3000 if cx.quick() else 60000
+    n = 3000 if cx.quick() else 30000
     rp = cx.path("rand.ndjson")
     cx.run([lang, "gen", "-seed", str(cx.seed * 1000 + 2), "-n", str(n), "-depth", "4", "-budget", "90", "-closure", "-out", rp])
     rcases = vlib.read_ndjson(rp)
